@@ -205,7 +205,7 @@ Proof.
       * rewrite app_length; cbn; lia.
       * intros l L NR. rewrite lookup_app_old by lia. auto.
       * intros l c k L D I. apply lookup_alloc_inv in L. destruct L as [[Y L]|[-> ->]].
-        -- apply (P l c k L); auto. destruct D as [G1|N]; auto; lia.
+        -- apply (P l c k L); auto.
         -- right. cbn in I. now apply reach_root.
     + destruct W1 as [C1 A1]. split; [apply closed_alloc|apply acyclic_alloc]; auto.
     + intros o [<-|[]]. rewrite app_length; cbn. lia.
